@@ -366,10 +366,10 @@ class PyRng:
 TREAP_TIERS = {
     "C03": {"quick": 1_000_000, "thorough": 20_000_000},
     # (controlled-priority runs watched for heap order, real-priority process runs, of which at n = 10^6)
-    "C16": {"quick": (200_000, 120, 6), "thorough": (4_000_000, 900, 30)},
+    "C16": {"quick": (200_000, 168, 7), "thorough": (4_000_000, 1260, 42)},
 }
 
-N_HISTORIES = 10
+N_HISTORIES = 14
 
 
 def treap_ctl(seed, runs, tag):
@@ -489,7 +489,7 @@ def real_matrix(seed, count, big):
     top = 48 if count < 500 else 160
     for k in range(2, top + 1):
         for j in range(1 if count < 500 else 2):
-            cfgs.append({"history": [0, 1, 2, 3, 5, 7, 9][(k + 3 * j) % 7], "n": 30_000 if count < 500 else 100_000, "mode": 1, "stride": k, "seed": rng.next() % (1 << 48)})
+            cfgs.append({"history": [0, 1, 2, 3, 5, 7, 9, 10, 12][(k + 4 * j) % 9], "n": 30_000 if count < 500 else 100_000, "mode": 1, "stride": k, "seed": rng.next() % (1 << 48)})
     for b in range(big):
         cfgs.append({"history": b % N_HISTORIES, "n": 1_000_000, "mode": [0, 1, 2][b % 3], "stride": rng.pick([2, 3, 8, 64]), "seed": rng.next() % (1 << 48)})
     return cfgs
@@ -606,7 +606,7 @@ def check_c16(tier, seed):
         "exhaustive": False,
         "rule": (
             "Two layers. (1) real-priority process runs: one (history, n, foreign-draw interleaving, stride, seed) per process, priorities drawn by the library's own generator; "
-            "the simulator decides the history (10 adversarial orders) and how many foreign nodes are created between two own node creations on the shared generator; height and heap order are "
+            "the simulator decides the history (14 adversarial orders) and how many foreign nodes are created between two own node creations on the shared generator; height and heap order are "
             "measured by an iterative walk at every doubling of n and at the end against 5*log2(n+1)+20. (2) controlled-priority histories (same engine as C03) watched for heap order "
             "(direction-agnostic) after every step under ties/spines. distinct_nontrivial = distinct final-tree digests of layer 1 + distinct (shape, pending-set) states of layer 2."
         ),
@@ -652,6 +652,10 @@ def miri_env(seed, rate):
 
 def miri_args(cfg, mode="concurrent"):
     a = ["--mode", mode, "--threads", str(cfg["threads"]), "--hseed", str(cfg["hseed"]), "--ops", str(cfg["ops"])]
+    if cfg.get("long"):
+        a += ["--long", str(cfg["long"])]
+    if cfg.get("churn"):
+        a += ["--churn", str(cfg["churn"])]
     if cfg.get("stamped"):
         a.append("--stamped")
     if cfg.get("main_participates") and mode == "concurrent":
@@ -695,7 +699,7 @@ class SeqRef:
         self.cache = {}
 
     def native(self, cfg, mode, extra=()):
-        key = (cfg["threads"], cfg["hseed"], cfg["ops"], mode, tuple(extra))
+        key = (cfg["threads"], cfg["hseed"], cfg["ops"], cfg.get("long", 0), cfg.get("churn", 0), mode, tuple(extra))
         if key not in self.cache:
             c = dict(cfg, stamped=False)
             rc, so, se = run([self.binary] + miri_args(c, mode) + list(extra), timeout=300)
@@ -765,6 +769,23 @@ def c17_matrix(seed, count, deep=False):
             "ops": ops,
             "stamped": i % 2 == 0,
             "main_participates": rng.below(4) == 0,
+            # a quarter of the runs end with a churn phase (remove one, insert one, 20-80 times)
+            "churn": (20 + rng.below(61)) if i % 4 == 1 else 0,
+        })
+    # long runs: more than 1024 (thorough: 4096) node creations per thread, so that anything that
+    # happens only every N draws (batched statistics, periodic re-seeding, block reservations)
+    # is executed at all; bare creations keep the Miri cost at a few seconds per run
+    longs = [(2, 1100), (2, 1100), (3, 600), (2, 300)] if not deep else [(2, 1100)] * 6 + [(3, 1100)] * 4 + [(2, 4200)] * 4 + [(4, 600)] * 2
+    for j, (threads, n) in enumerate(longs):
+        cfgs.append({
+            "miri_seed": rng.below(1 << 31),
+            "rate": MIRI_RATES[(j + 1) % 4],
+            "threads": threads,
+            "hseed": rng.below(1 << 40),
+            "ops": 4,
+            "long": n,
+            "stamped": False,
+            "main_participates": j % 3 == 2,
         })
     return cfgs
 
@@ -912,7 +933,7 @@ def check_c17(tier, seed):
         "exhaustive": False,
         "rule": (
             "A run = one execution of the multi-threaded program sim/mirisched under Miri with (-Zmiri-seed, -Zmiri-preemption-rate in {0.01,0.1,0.3,0.6}, 2-3 threads, "
-            "optionally the main thread as participant, per-thread history of 5-14 (thorough: up to 24, with up to 4 threads) node creations / treap operations on thread-owned treaps). One Miri seed = one exactly repeatable schedule. "
+            "optionally the main thread as participant, per-thread history of 5-14 (thorough: up to 24, with up to 4 threads) node creations / treap operations on thread-owned treaps whose item types (node layouts) differ between threads; plus a few long runs with 300-2100 (thorough: up to 4200) bare node creations per thread). One Miri seed = one exactly repeatable schedule. "
             "distinct_nontrivial = number of distinct global node-creation orders (sequence of thread ids sorted by a Relaxed stamp) with at least 2 thread switches, among the stamped half of the runs."
         ),
         "miri_executions": len(cfgs),
